@@ -15,6 +15,29 @@
 //!   uncompressed in a message, `ParsedName` compressed at every suffix
 //!   (plus a pointer chain and a double pointer), `Chain<RelativeName, Name>`
 //!   split at every boundary;
+//! * hostile octets in whole names: all sequences of <= 2 (thorough: <= 3)
+//!   labels over {a, "\\000", "a\\000", "A\\000", "\\000a", "a\\000b",
+//!   "b\\000", ".", "a."} plus each of these labels at every position of a
+//!   name one label deeper, and the same over {a, 63 x 'a', 62 x 'a' + 'Z',
+//!   'Z' + 62 x 'a', and the lower-case twins of the last two}: in all the
+//!   representations above, as relative names (flat, chains), in every
+//!   compression shape (<= 1 label quick, <= 2 thorough), as owner of a
+//!   record / record header and in place of every embedded name of every
+//!   compact record data value (flat and parsed). A non-root label that ends
+//!   in 0x00 makes the name end, octet-wise, like a shorter absolute name;
+//! * label walks: for every name of every name domain in every
+//!   representation, `iter_labels` forwards, backwards, f labels from the
+//!   front then the rest from the back (every f), b from the back then the
+//!   rest from the front (every b) and alternating must each yield exactly
+//!   the labels the name was built from; `starts_with`/`ends_with` for all
+//!   ordered pairs against the label-wise reference; for flat names also
+//!   `iter`, `iter_suffixes`, `label_count`, `first`, `last`, `split_first`,
+//!   `parent`, `ends_with`/`strip_suffix` with each own suffix;
+//! * case at every position: for every label length 1..=63 and every
+//!   position, the label of 'a's with 'Z' there against its lower-case twin
+//!   and its neighbours ('y', '{'): equality, order, hash, and every
+//!   canonical form (label; name flat / parsed / chained; relative name;
+//!   composed, converted, made in place) == the lower-cased wire form;
 //! * compression shapes: every name of those menus (<= 3 labels over the
 //!   5-label menu, <= 2 over the extended one; thorough: <= 3 over both) as
 //!   `ParsedName` parsed from a hand-assembled message that stores it in every
@@ -659,6 +682,131 @@ fn dom_labels(env: &Env, only: Option<&[usize]>) {
     check_laws(env, &LawCfg { dom: "label", ord_name: "cmp", with_eq: true, triples: true, desc: &desc, pair_class: &cls, hash_class: &cls, only_prefix: None, tag: "label", sig_dom: "label" }, &rel, Some(&hashes));
 }
 
+//------------ labels: case at every position of every length ------------------------
+
+/// For every label length 1..=63 and every position in the label: the label
+/// `aa..Z..a` (one upper-case letter at that position), its lower-case twin
+/// `aa..z..a` and its neighbours with `y` and `{` there. The twins are equal,
+/// compare Equal and hash alike; the order against the neighbours is that of
+/// the lower-cased octets (RFC 4034 6.1); every canonical form (label, and
+/// the label inside an absolute name flat / parsed from a message / chained,
+/// and inside a relative name; composed, converted and made in place) is the
+/// independently lower-cased wire form. Unary plus a constant number of
+/// pairs per (length, position): 2016 groups.
+fn dom_label_positions(env: &Env, only: Option<&[usize]>) {
+    use domain::base::name::ToRelativeName;
+    let dom = "label-position";
+    let mut all: Vec<(usize, usize)> = Vec::new();
+    for len in 1..=63usize {
+        for pos in 0..len {
+            all.push((len, pos));
+        }
+    }
+    let items = restrict(all, only);
+    items.par_iter().for_each(|&(index, (len, pos))| {
+        let with = |c: u8| {
+            let mut v = vec![b'a'; len];
+            v[pos] = c;
+            v
+        };
+        let (up, lo, below, above) = (with(b'Z'), with(b'z'), with(b'y'), with(b'{'));
+        let pos_class = if len == 1 { "only-octet" } else if pos == 0 { "first-octet" } else if pos + 1 == len { "last-octet" } else { "inner-octet" };
+        let len_class = if len == 63 { "maximum-length-label" } else { "shorter-label" };
+        let case = || json!({"domain": dom, "items": [{"index": index, "length": len, "position": pos, "label": hex(&up)}]});
+        env.stats.eval();
+        env.stats.distinct(mix(30, len, pos));
+        let r = guard(|| {
+            let mut bad: Vec<&'static str> = Vec::new();
+            fn l(b: &[u8]) -> &Label {
+                Label::from_slice(b).expect("label of at most 63 octets")
+            }
+            let (lu, ll, lb, la) = (l(&up), l(&lo), l(&below), l(&above));
+            if lu != ll || ll != lu || lu.cmp(ll) != Ordering::Equal || ll.cmp(lu) != Ordering::Equal || lu.partial_cmp(ll) != Some(Ordering::Equal) {
+                bad.push("label|case-twins-not-equal");
+            }
+            if hrec(lu) != hrec(ll) {
+                bad.push("label|case-twins-hash-differently");
+            }
+            if lu.cmp(lb) != Ordering::Greater || lb.cmp(lu) != Ordering::Less || lu.cmp(la) != Ordering::Less || la.cmp(lu) != Ordering::Greater || lu == lb || lu == la {
+                bad.push("label|order-against-neighbours-is-not-that-of-the-lower-cased-octets");
+            }
+            if lu.lowercase_composed_cmp(ll) != Ordering::Equal || lu.lowercase_composed_cmp(lb) != Ordering::Greater || lu.lowercase_composed_cmp(la) != Ordering::Less || lu.composed_cmp(ll) != Ordering::Less {
+                bad.push("label|composed-orders");
+            }
+            let mut cc = Vec::new();
+            lu.compose_canonical(&mut cc).unwrap();
+            let mut oc = OwnedLabel::from_label(lu);
+            oc.make_canonical();
+            if lu.to_canonical().as_slice() != &lo[..] || cc != wire_label(&lo) || oc.as_slice() != &lo[..] {
+                bad.push("label|canonical-form-is-not-the-lower-cased-label");
+            }
+            // the label as the only and as the first of two labels of an absolute name
+            for rest in [vec![], vec![b"B".to_vec()]] {
+                let mut labels = vec![up.clone()];
+                labels.extend(rest.iter().cloned());
+                let lower: Vec<Vec<u8>> = labels.iter().map(|x| lc(x)).collect();
+                let (w, lw) = (name_wire(&labels), name_wire(&lower));
+                let flat: Nm = Name::from_octets(w.clone()).unwrap();
+                let twin: Nm = Name::from_octets(lw.clone()).unwrap();
+                let mut msg = vec![0u8; 12];
+                msg.extend_from_slice(&w);
+                let mut p = Parser::from_ref(msg.as_slice());
+                p.advance(12).unwrap();
+                let parsed = ParsedName::parse(&mut p).unwrap();
+                let chain = RelativeName::from_octets(labels_wire(&labels[..1])).unwrap().chain(Name::<Vec<u8>>::from_octets(name_wire(&labels[1..])).unwrap()).unwrap();
+                let canon_of = |n: &dyn Fn(&mut Vec<u8>)| {
+                    let mut t = Vec::new();
+                    n(&mut t);
+                    t
+                };
+                let mut made = flat.clone();
+                made.make_canonical();
+                let forms = [
+                    canon_of(&|t| flat.compose_canonical(t).unwrap()),
+                    canon_of(&|t| parsed.compose_canonical(t).unwrap()),
+                    canon_of(&|t| chain.compose_canonical(t).unwrap()),
+                    flat.to_canonical_name::<Vec<u8>>().as_slice().to_vec(),
+                    parsed.to_canonical_name::<Vec<u8>>().as_slice().to_vec(),
+                    chain.to_canonical_name::<Vec<u8>>().as_slice().to_vec(),
+                    made.as_slice().to_vec(),
+                ];
+                if forms.iter().any(|f| *f != lw) {
+                    bad.push("name|canonical-form-is-not-the-lower-cased-name");
+                }
+                if flat != twin || parsed != twin || !chain.name_eq(&twin) || flat.cmp(&twin) != Ordering::Equal || parsed.name_cmp(&twin) != Ordering::Equal || chain.name_cmp(&twin) != Ordering::Equal || flat.canonical_cmp(&twin) != Ordering::Equal || flat.lowercase_composed_cmp(&twin) != Ordering::Equal {
+                    bad.push("name|case-twins-not-equal");
+                }
+                if hrec(&flat) != hrec(&twin) || hrec(&parsed).stream != hrec(&twin).stream {
+                    bad.push("name|case-twins-hash-differently");
+                }
+            }
+            let rel = RelativeName::from_octets(wire_label(&up)).unwrap();
+            let rtwin = RelativeName::from_octets(wire_label(&lo)).unwrap();
+            let mut rmade = rel.clone();
+            rmade.make_canonical();
+            let mut rc = Vec::new();
+            ToRelativeName::compose_canonical(&rel, &mut rc).unwrap();
+            if rmade.as_slice() != &wire_label(&lo)[..] || rc != wire_label(&lo) || rel.to_canonical_relative_name::<Vec<u8>>().as_slice() != &wire_label(&lo)[..] {
+                bad.push("relname|canonical-form-is-not-the-lower-cased-name");
+            }
+            if rel != rtwin || rel.cmp(&rtwin) != Ordering::Equal || hrec(&rel) != hrec(&rtwin) {
+                bad.push("relname|case-twins-not-equal-or-hash-differently");
+            }
+            bad.dedup();
+            bad
+        });
+        match r {
+            Err(e) => env.viol(format!("C04|label-position|panic|{}", panic_class(&e)), e, case()),
+            Ok(bad) => {
+                for b in bad {
+                    env.viol(format!("C04|label-position|{b}|{pos_class}-of-{len_class}"), format!("label of {len} octets, letter at position {pos}: {b}"), case());
+                }
+            }
+        }
+    });
+    env.stats.count_n("label-position:(length,position)-groups", items.len() as u64);
+}
+
 //------------ character strings ------------------------------------------------------
 
 fn charstr_items(quick: bool) -> Vec<Vec<u8>> {
@@ -832,7 +980,31 @@ fn dom_charstrs(env: &Env, only: Option<&[usize]>) {
 /// The DESIGN menu (5 labels); the extended menu adds two labels whose
 /// content contains length-octet look-alikes: the wire form of `a\001b.`
 /// ends in the wire form of `b.`, that of `\001a.` in the wire form of `a.`.
+///
+/// Two further small menus put the hostile octets of the LABEL domain into
+/// whole names (both start with the filler label `a`):
+///
+/// * `MENU_HOSTILE`: labels that end in, start with, contain or consist of
+///   the octet 0x00 (the root label's wire form) or 0x2E (the separator of
+///   the presentation form), with a case twin: a name whose non-root label
+///   ends in 0x00 ends, octet-wise, like an absolute name one label shorter;
+/// * `MENU_LONG`: labels of the maximum length 63 with a case-relevant octet
+///   in the first or the last position, each with its lower-case twin.
+const MENU_HOSTILE: usize = 21;
+const MENU_LONG: usize = 22;
+
 fn name_label_menu(menu: usize) -> Vec<Vec<u8>> {
+    if menu == MENU_HOSTILE {
+        return vec![b"a".to_vec(), b"\0".to_vec(), b"a\0".to_vec(), b"A\0".to_vec(), b"\0a".to_vec(), b"a\0b".to_vec(), b"b\0".to_vec(), b".".to_vec(), b"a.".to_vec()];
+    }
+    if menu == MENU_LONG {
+        let first = |c: u8| {
+            let mut v = vec![b'a'; 63];
+            v[0] = c;
+            v
+        };
+        return vec![b"a".to_vec(), vec![b'a'; 63], with_last(b'a', 63, b'Z'), first(b'Z'), with_last(b'a', 63, b'z'), first(b'z')];
+    }
     let mut v = vec![b"a".to_vec(), b"A".to_vec(), b"b".to_vec(), b"a.b".to_vec(), b"ab".to_vec()];
     if menu > 5 {
         v.push(b"a\x01b".to_vec());
@@ -841,8 +1013,12 @@ fn name_label_menu(menu: usize) -> Vec<Vec<u8>> {
     v
 }
 
-/// All label sequences of length <= depth over the menu.
+/// All label sequences of length <= depth over the menu. For the two small
+/// special menus additionally the sequences of depth+1 labels in which
+/// exactly one label is not the filler (the special label at every position
+/// of a name one label deeper, without the cost of the full product).
 fn name_items(depth: usize, menu: usize) -> Vec<Vec<Vec<u8>>> {
+    let special = menu == MENU_HOSTILE || menu == MENU_LONG;
     let menu = name_label_menu(menu);
     let mut out = Vec::new();
     let mut buf: Vec<Vec<u8>> = Vec::new();
@@ -850,6 +1026,15 @@ fn name_items(depth: usize, menu: usize) -> Vec<Vec<Vec<u8>>> {
         for k in 0..pow(menu.len(), n) {
             nth_string(&menu, n, k, &mut buf);
             out.push(buf.clone());
+        }
+    }
+    if special {
+        for pos in 0..=depth {
+            for l in &menu[1..] {
+                let mut v = vec![menu[0].clone(); depth + 1];
+                v[pos] = l.clone();
+                out.push(v);
+            }
         }
     }
     out
@@ -1033,6 +1218,77 @@ struct NameObs {
     /// Ord::cmp (same type on both sides)
     ord: Option<i8>,
     can_ops_ok: Option<bool>,
+    /// ToLabelIter::starts_with / ends_with (label walk from the front / the back)
+    starts: bool,
+    ends: bool,
+}
+
+fn rep_class(r: &Rep) -> &'static str {
+    match r {
+        Rep::Flat(_) => "flat-name",
+        Rep::Parsed(_) => "parsed-name",
+        Rep::Chain(_) | Rep::Chain3(_) => "chain",
+        Rep::UChain(_) => "uncertain-chain",
+    }
+}
+
+/// Walks the labels of one name in every order a double-ended iterator
+/// allows and compares with the label list the name was built from (`want`
+/// includes the root label of an absolute name): forwards; backwards; f
+/// labels from the front, the rest from the back (every f); b labels from
+/// the back, the rest from the front (every b); alternating, starting at
+/// either end. Every label must come out exactly once, whatever the octets
+/// in it, and then the iterator must be exhausted (asked once, at the end
+/// opposite to the last label taken where the walk is mixed).
+/// Returns the kinds of walk that went wrong.
+fn walk_labels<N: ToLabelIter + ?Sized>(name: &N, want: &[Vec<u8>]) -> Vec<String> {
+    let k = want.len();
+    let mut bad: Vec<String> = Vec::new();
+    // plan: true = take from the front, false = from the back; k + 1 steps
+    // (the last one must yield nothing)
+    let run = |plan: &dyn Fn(usize) -> bool| -> bool {
+        let mut it = name.iter_labels();
+        let mut front: Vec<Vec<u8>> = Vec::new();
+        let mut back: Vec<Vec<u8>> = Vec::new();
+        for step in 0..=k {
+            let from_front = plan(step);
+            let got = if from_front { it.next() } else { it.next_back() };
+            match got {
+                Some(l) if step < k => {
+                    if from_front {
+                        front.push(l.as_slice().to_vec())
+                    } else {
+                        back.push(l.as_slice().to_vec())
+                    }
+                }
+                Some(_) => return false,
+                None if step < k => return false,
+                None => {}
+            }
+        }
+        back.reverse();
+        front.extend(back);
+        front == want
+    };
+    if !run(&|_| true) {
+        bad.push("forward".into());
+    }
+    if !run(&|_| false) {
+        bad.push("backward".into());
+    }
+    if (1..k).any(|f| !run(&|s| s < f || s == k)) {
+        bad.push("front-then-back".into());
+    }
+    if (1..k).any(|b| !run(&|s| !(s < b || s == k))) {
+        bad.push("back-then-front".into());
+    }
+    if !run(&|s| s % 2 == 0) || !run(&|s| s % 2 == 1) {
+        bad.push("alternating".into());
+    }
+    if name.iter_labels().take(k + 2).count() != k || name.iter_labels().rev().take(k + 2).count() != k {
+        bad.push("count".into());
+    }
+    bad
 }
 
 fn observe_names(x: &Rep, y: &Rep) -> NameObs {
@@ -1044,7 +1300,8 @@ fn observe_names(x: &Rep, y: &Rep) -> NameObs {
         _ => None,
     };
     let can_ops_ok = left_pair!(x, y, |a, b| canon_ops_ok(a, b));
-    NameObs { name_eq, name_cmp, composed, lc_composed, ops, ord, can_ops_ok }
+    let (starts, ends) = any_pair!(x, y, |a, b| (ToLabelIter::starts_with(a, b), ToLabelIter::ends_with(a, b)));
+    NameObs { name_eq, name_cmp, composed, lc_composed, ops, ord, can_ops_ok, starts, ends }
 }
 
 fn dom_names(env: &Env, depth: usize, menu: usize, chain3: bool, rep_triples: bool, dom_id: u64, only: Option<&[usize]>) {
@@ -1156,6 +1413,20 @@ fn dom_names(env: &Env, depth: usize, menu: usize, chain3: bool, rep_triples: bo
                 }
             }
         }
+        // label walks in every order give the labels the name was built from
+        {
+            let mut want: Vec<Vec<u8>> = names[ni].clone();
+            want.push(vec![]);
+            env.stats.eval();
+            match guard(|| one_rep!(r, |a| walk_labels(a, &want))) {
+                Err(e) => env.viol(format!("C04|name|panic|{}", panic_class(&e)), e, case()),
+                Ok(bad) => {
+                    for b in bad {
+                        env.viol(format!("C04|name|label-iteration-differs-from-the-name|{b}|{}", rep_class(r)), format!("walking the labels {b} does not give {:?} + root, each exactly once", names[ni].iter().map(|l| hex(l)).collect::<Vec<_>>()), case());
+                    }
+                }
+            }
+        }
         if let Rep::Chain(c) = r {
             let fl: Result<Result<Name<Vec<u8>>, _>, String> = guard(|| c.clone().try_flatten_into());
             match fl {
@@ -1256,6 +1527,17 @@ fn dom_names(env: &Env, depth: usize, menu: usize, chain3: bool, rep_triples: bo
                 if o.lc_composed != ref_lcomp {
                     env.viol(format!("C04|name|lowercase_composed_cmp-vs-canonical-wire-octets|{}", kinds()), format!("lowercase_composed_cmp = {}, canonical wire octets order {}", ord_s(o.lc_composed), ord_s(ref_lcomp)), case());
                 }
+                // label-wise suffix / prefix (labels compare ignoring case;
+                // two absolute names: a prefix that ends in the root is the name)
+                let ref_ends = lcl[ni].starts_with(&lcl[nj][..]);
+                if o.ends != ref_ends {
+                    let k = if ref_ends { "suffix-not-recognised" } else { "non-suffix-accepted" };
+                    env.viol(format!("C04|name|ends_with-vs-reference|{k}|{}", kinds()), format!("ends_with = {}", o.ends), case());
+                }
+                if o.starts != ref_eq {
+                    let k = if ref_eq { "same-name-not-recognised" } else { "different-name-accepted" };
+                    env.viol(format!("C04|name|starts_with-vs-reference|{k}|{}", kinds()), format!("starts_with = {}", o.starts), case());
+                }
                 // equal names hash equal whatever the representation
                 if o.name_eq {
                     if let (Some(h1), Some(h2)) = (&hashes[i], &hashes[j]) {
@@ -1311,6 +1593,59 @@ fn dom_names(env: &Env, depth: usize, menu: usize, chain3: bool, rep_triples: bo
                     }
                     if !beq || !ceq || cw != lwires_u[specs[flat_idx[a]].1.name] {
                         env.viol("C04|name|conversion|borrow-or-make_canonical-changes-the-name".into(), format!("borrow == {beq}, canonical == {ceq}, canonical octets {}", hex(&cw)), case());
+                    }
+                }
+            }
+        }
+        // the flat name's own label access: iter (both directions),
+        // iter_suffixes, label_count, first, last, split_first, parent,
+        // ends_with / strip_suffix with each of its own suffixes
+        for a in 0..m {
+            let labels = &names[specs[flat_idx[a]].1.name];
+            let k = labels.len();
+            env.stats.eval();
+            let case = || json!({"domain": dom, "depth": depth, "items": [fdesc(a)]});
+            let r = guard(|| {
+                let mut bad: Vec<&'static str> = Vec::new();
+                let sufs: Vec<Vec<u8>> = nv[a].iter_suffixes().take(k + 3).map(|s| s.as_slice().to_vec()).collect();
+                if sufs != (0..=k).map(|s| name_wire(&labels[s..])).collect::<Vec<_>>() {
+                    bad.push("iter_suffixes");
+                }
+                let mut want: Vec<Vec<u8>> = labels.clone();
+                want.push(vec![]);
+                let fwd: Vec<Vec<u8>> = nu[a].iter().take(k + 3).map(|l| l.as_slice().to_vec()).collect();
+                let mut back: Vec<Vec<u8>> = ns[a].iter().rev().take(k + 3).map(|l| l.as_slice().to_vec()).collect();
+                back.reverse();
+                if fwd != want || back != want {
+                    bad.push("iter");
+                }
+                if nv[a].label_count() != k + 1 || nv[a].first().as_slice() != &want[0][..] || !nv[a].last().is_root() {
+                    bad.push("label_count/first/last");
+                }
+                let sf = nv[a].split_first().map(|(l, rest)| (l.as_slice().to_vec(), rest.as_slice().to_vec()));
+                let parent = nv[a].parent().map(|p| p.as_slice().to_vec());
+                let want_sf = if k == 0 { None } else { Some((labels[0].clone(), name_wire(&labels[1..]))) };
+                if sf != want_sf || parent != want_sf.map(|x| x.1) {
+                    bad.push("split_first/parent");
+                }
+                for s in 0..=k {
+                    let suf: Nm = Name::from_octets(name_wire(&labels[s..])).unwrap();
+                    if !nv[a].ends_with(&suf) || (s > 0 && suf.ends_with(&nv[a])) {
+                        bad.push("ends_with-own-suffix");
+                    }
+                    match nv[a].clone().strip_suffix(&suf) {
+                        Ok(rel) if rel.as_slice() == &labels_wire(&labels[..s])[..] => {}
+                        _ => bad.push("strip_suffix-own-suffix"),
+                    }
+                }
+                bad.dedup();
+                bad
+            });
+            match r {
+                Err(e) => env.viol(format!("C04|name|panic|{}", panic_class(&e)), e, case()),
+                Ok(bad) => {
+                    for b in bad {
+                        env.viol(format!("C04|name|flat-name-label-access-differs-from-the-name|{b}"), format!("{b} of the flat name does not give what the labels {:?} say", labels.iter().map(|l| hex(l)).collect::<Vec<_>>()), case());
                     }
                 }
             }
@@ -1724,6 +2059,20 @@ fn dom_name_shapes(env: &Env, depth: usize, menu: usize, max_hops: usize, far: b
                     }
                 }
             }
+            // label walks in every order (every representation)
+            {
+                let mut want: Vec<Vec<u8>> = names[ni].clone();
+                want.push(vec![]);
+                env.stats.eval();
+                match guard(|| one_rep!(&reps[i], |a| walk_labels(a, &want))) {
+                    Err(e) => env.viol(format!("C04|name-shape|panic|{}|{}", cls1(i), shape_panic_class(&e)), e, case()),
+                    Ok(bad) => {
+                        for b in bad {
+                            env.viol(format!("C04|name-shape|label-iteration-differs-from-the-name|{b}|{}", cls1(i)), format!("walking the labels {b} does not give {:?} + root, each exactly once", names[ni].iter().map(|l| hex(l)).collect::<Vec<_>>()), case());
+                        }
+                    }
+                }
+            }
             env.stats.merge_counts(&local);
             h
         })
@@ -1790,6 +2139,15 @@ fn dom_name_shapes(env: &Env, depth: usize, menu: usize, max_hops: usize, far: b
                 if o.lc_composed != ref_lcomp {
                     env.viol(format!("C04|name-shape|lowercase_composed_cmp-vs-canonical-wire-octets|{}", cls2(i, j)), format!("lowercase_composed_cmp = {}, canonical wire octets order {}", ord_s(o.lc_composed), ord_s(ref_lcomp)), case());
                 }
+                let ref_ends = lcl[ni].starts_with(&lcl[nj][..]);
+                if o.ends != ref_ends {
+                    let k = if ref_ends { "suffix-not-recognised" } else { "non-suffix-accepted" };
+                    env.viol(format!("C04|name-shape|ends_with-vs-reference|{k}|{}", cls2(i, j)), format!("ends_with = {}", o.ends), case());
+                }
+                if o.starts != ref_eq {
+                    let k = if ref_eq { "same-name-not-recognised" } else { "different-name-accepted" };
+                    env.viol(format!("C04|name-shape|starts_with-vs-reference|{k}|{}", cls2(i, j)), format!("starts_with = {}", o.starts), case());
+                }
                 if o.name_eq || ref_eq {
                     if let (Some(h1), Some(h2)) = (&hashes[i], &hashes[j]) {
                         if h1.stream != h2.stream {
@@ -1853,16 +2211,20 @@ struct RelObs {
     ops: Option<(bool, Option<i8>, bool, bool, bool, bool)>,
     /// Ord::cmp (both flat)
     ord: Option<i8>,
+    /// ToLabelIter::starts_with / ends_with
+    starts: bool,
+    ends: bool,
 }
 
 /// Relative names: all label sequences of <= depth labels over the 5-label
 /// menu (including the empty name, so every label-prefix pair occurs), each
 /// as flat `RelativeName`, `Chain<Rel, Rel>` split at every boundary and
 /// `Chain<Chain<Rel, Rel>, Rel>` split at every pair of boundaries.
-fn dom_relnames(env: &Env, depth: usize, only: Option<&[usize]>) {
+fn dom_relnames(env: &Env, depth: usize, menu: usize, triples: bool, dom_id: u64, only: Option<&[usize]>) {
     use domain::base::name::ToRelativeName;
     let dom = "relname";
-    let names = name_items(depth, 5);
+    let names = name_items(depth, menu);
+    let tag = if menu == 5 { "relname".to_string() } else { format!("relname(depth{depth},menu{menu})") };
     let mut specs_all = Vec::new();
     for (i, l) in names.iter().enumerate() {
         let k = l.len();
@@ -1880,7 +2242,7 @@ fn dom_relnames(env: &Env, depth: usize, only: Option<&[usize]>) {
     let n = specs.len();
     let desc = |i: usize| {
         let s = &specs[i].1;
-        json!({"index": specs[i].0, "labels_hex": names[s.name].iter().map(|l| hex(l)).collect::<Vec<_>>(), "labels": names[s.name].iter().map(|l| String::from_utf8_lossy(l).to_string()).collect::<Vec<_>>(), "representation": s.kind})
+        json!({"index": specs[i].0, "depth": depth, "menu": menu, "labels_hex": names[s.name].iter().map(|l| hex(l)).collect::<Vec<_>>(), "labels": names[s.name].iter().map(|l| String::from_utf8_lossy(l).to_string()).collect::<Vec<_>>(), "representation": s.kind})
     };
     let mut reps: Vec<RRep> = Vec::with_capacity(n);
     for (i, (_, s)) in specs.iter().enumerate() {
@@ -1945,6 +2307,42 @@ fn dom_relnames(env: &Env, depth: usize, only: Option<&[usize]>) {
                 }
             }
         }
+        // label walks in every order give the labels the name was built from
+        env.stats.eval();
+        match guard(|| {
+            let mut bad = one_rrep!(r, |a| walk_labels(a, labels));
+            if let RRep::Flat(a) = r {
+                // the flat name's own label access and in-place canonical form
+                let mut c = a.clone();
+                c.make_canonical();
+                if a.label_count() != labels.len() || a.first().map(|l| l.as_slice()) != labels.first().map(|l| &l[..]) || a.last().map(|l| l.as_slice()) != labels.last().map(|l| &l[..]) || a.iter().rev().take(labels.len() + 2).count() != labels.len() {
+                    bad.push("label_count/first/last".into());
+                }
+                if c.as_slice() != &lw[..] || c != *a || hrec(&c) != hrec(a) {
+                    bad.push("make_canonical".into());
+                }
+                for s in 0..=labels.len() {
+                    let suf = RelativeName::from_octets(labels_wire(&labels[s..])).unwrap();
+                    let pre = RelativeName::from_octets(labels_wire(&labels[..s])).unwrap();
+                    if !a.ends_with(&suf) || !a.starts_with(&pre) || (s > 0 && suf.ends_with(a)) || (s < labels.len() && pre.starts_with(a)) {
+                        bad.push("starts_with/ends_with-own-prefix/suffix".into());
+                    }
+                    let mut stripped = a.clone();
+                    if stripped.strip_suffix(&suf).is_err() || stripped.as_slice() != pre.as_slice() {
+                        bad.push("strip_suffix-own-suffix".into());
+                    }
+                }
+                bad.dedup();
+            }
+            bad
+        }) {
+            Err(e) => env.viol(format!("C04|relname|panic|{}", panic_class(&e)), e, case()),
+            Ok(bad) => {
+                for b in bad {
+                    env.viol(format!("C04|relname|label-iteration-differs-from-the-name|{b}|{}", if specs[i].1.flat { "flat" } else { "chain" }), format!("{b}: the labels are {:?}", labels.iter().map(|l| hex(l)).collect::<Vec<_>>()), case());
+                }
+            }
+        }
     }
     let hashes: Vec<Option<Hs>> = reps.iter().map(|r| if let RRep::Flat(a) = r { guard(|| hrec(a)).ok() } else { None }).collect();
     let lcl: Vec<Vec<Vec<u8>>> = names.iter().map(|l| l.iter().rev().map(|x| lc(x)).collect()).collect();
@@ -1969,11 +2367,12 @@ fn dom_relnames(env: &Env, depth: usize, only: Option<&[usize]>) {
                         (RRep::Flat(a), RRep::Flat(b)) => Some(sgn(a.cmp(b))),
                         _ => None,
                     };
-                    RelObs { name_eq, name_cmp, ops, ord }
+                    let (starts, ends) = one_rrep!(x, |a| one_rrep!(y, |b| (ToLabelIter::starts_with(a, b), ToLabelIter::ends_with(a, b))));
+                    RelObs { name_eq, name_cmp, ops, ord, starts, ends }
                 });
                 env.stats.eval();
                 if i != j {
-                    env.stats.distinct(mix(12, specs[i].0, specs[j].0));
+                    env.stats.distinct(mix(dom_id, specs[i].0, specs[j].0));
                 }
                 let o = match r {
                     Ok(o) => o,
@@ -2006,6 +2405,13 @@ fn dom_relnames(env: &Env, depth: usize, only: Option<&[usize]>) {
                         env.viol(format!("C04|relname|Ord::cmp-vs-name_cmp|{}", kinds()), format!("{o:?}"), case());
                     }
                 }
+                // label-wise suffix / prefix (lcl: lower-cased labels, last label first)
+                let ref_ends = lcl[ni].starts_with(&lcl[nj][..]);
+                let ref_starts = lcl[ni].ends_with(&lcl[nj][..]);
+                if o.ends != ref_ends || o.starts != ref_starts {
+                    let k = if o.ends != ref_ends { "ends_with" } else { "starts_with" };
+                    env.viol(format!("C04|relname|{k}-vs-reference|{}", kinds()), format!("starts_with = {} (reference {ref_starts}), ends_with = {} (reference {ref_ends})", o.starts, o.ends), case());
+                }
             }
             (re, rc)
         })
@@ -2017,15 +2423,15 @@ fn dom_relnames(env: &Env, depth: usize, only: Option<&[usize]>) {
     if n > 2 {
         env.stats.sample(60, || json!({"domain": dom, "a": desc(n / 3), "b": desc(n / 2), "name_eq": rel.e(n / 3, n / 2), "name_cmp": ord_s(rel.c(n / 3, n / 2))}));
     }
-    env.stats.count_n("relname:names", names.len() as u64);
+    env.stats.count_n(&format!("{tag}:names"), names.len() as u64);
     let cls = |i: usize, j: usize| if specs[i].1.flat && specs[j].1.flat { "both-flat".to_string() } else { "not-both-flat".to_string() };
-    check_laws(env, &LawCfg { dom, ord_name: "name_cmp", with_eq: true, triples: true, desc: &desc, pair_class: &cls, hash_class: &cls, only_prefix: None, tag: "relname", sig_dom: "relname" }, &rel, None);
+    check_laws(env, &LawCfg { dom, ord_name: "name_cmp", with_eq: true, triples, desc: &desc, pair_class: &cls, hash_class: &cls, only_prefix: None, tag: &tag, sig_dom: "relname" }, &rel, None);
     let flat_idx: Vec<usize> = (0..n).filter(|&i| specs[i].1.flat).collect();
     let frel = sub_rel(&rel, &flat_idx);
     let fh: Vec<Hs> = flat_idx.iter().map(|&i| hashes[i].clone().unwrap_or_default()).collect();
     let fdesc = |a: usize| desc(flat_idx[a]);
     let fcls = |_: usize, _: usize| "flat-vs-flat".to_string();
-    check_laws(env, &LawCfg { dom: "relname-flat", ord_name: "cmp", with_eq: true, triples: true, desc: &fdesc, pair_class: &fcls, hash_class: &fcls, only_prefix: None, tag: "relname-flat", sig_dom: "relname-flat" }, &frel, Some(&fh));
+    check_laws(env, &LawCfg { dom: "relname-flat", ord_name: "cmp", with_eq: true, triples: true, desc: &fdesc, pair_class: &fcls, hash_class: &fcls, only_prefix: None, tag: &format!("{tag}-flat"), sig_dom: "relname-flat" }, &frel, Some(&fh));
 }
 
 //------------ record data -------------------------------------------------------------
@@ -2849,7 +3255,7 @@ fn embedded_message(rtype: u16, labels: &[Vec<u8>], parts: &[usize], owner_is_sh
 /// partial_cmp, cmp, canonical_cmp and Hash of `Record`, of the record data
 /// and of `RecordHeader`: the results must be those of the flat values, and
 /// those the reference (RFC 4034 6.1-6.3) demands.
-fn dom_embedded_shapes(env: &Env, max_hops: usize, only: Option<(usize, usize)>) {
+fn dom_embedded_shapes(env: &Env, max_hops: usize, hostile: bool, only: Option<(usize, usize)>) {
     let dom = "rdata-name-shape";
     let (vals, _) = rgen::values_ex(rgen::Tier::Compact);
     // (base value or vals.len() for the owner group, number of the embedded name)
@@ -2863,7 +3269,10 @@ fn dom_embedded_shapes(env: &Env, max_hops: usize, only: Option<(usize, usize)>)
     if let Some(o) = only {
         groups.retain(|g| *g == o);
     }
-    let subs = substitute_names();
+    // hostile: the names of `hostile_names` instead; the flat-vs-flat results
+    // are then checked against the reference here as well (the rdata and
+    // record domains do not hold these names as owners)
+    let subs = if hostile { hostile_names() } else { substitute_names() };
     let a_rdata = [192u8, 0, 2, 1];
     groups.par_iter().for_each(|&(b, k)| {
         let owner_group = b == vals.len();
@@ -2932,10 +3341,10 @@ fn dom_embedded_shapes(env: &Env, max_hops: usize, only: Option<(usize, usize)>)
         }
         let desc = |i: usize| {
             let it = &items[i];
-            json!({"type": t, "rtype": rtype, "base": if owner_group { "A 192.0.2.1, the owner varies".to_string() } else { vals[b].desc.clone() }, "embedded_name_number": k, "name": cands[it.cand].labels.iter().map(|l| String::from_utf8_lossy(l).to_string()).collect::<Vec<_>>(), "representation": it.kind, "shape_class": it.class, "rdata": hex(&cands[it.cand].wire), "message": hex(&it.msg), "record_pos": it.rec_pos})
+            json!({"type": t, "rtype": rtype, "base": if owner_group { "A 192.0.2.1, the owner varies".to_string() } else { vals[b].desc.clone() }, "embedded_name_number": k, "name": cands[it.cand].labels.iter().map(|l| String::from_utf8_lossy(l).to_string()).collect::<Vec<_>>(), "name_hex": cands[it.cand].labels.iter().map(|l| hex(l)).collect::<Vec<_>>(), "representation": it.kind, "shape_class": it.class, "rdata": hex(&cands[it.cand].wire), "message": hex(&it.msg), "record_pos": it.rec_pos})
         };
-        let case1 = |i: usize| json!({"domain": dom, "group": {"base": b, "name": k}, "max_hops": max_hops, "items": [desc(i)]});
-        let case2 = |i: usize, j: usize| json!({"domain": dom, "group": {"base": b, "name": k}, "max_hops": max_hops, "items": [desc(i), desc(j)]});
+        let case1 = |i: usize| json!({"domain": dom, "group": {"base": b, "name": k}, "max_hops": max_hops, "hostile_names": hostile, "items": [desc(i)]});
+        let case2 = |i: usize, j: usize| json!({"domain": dom, "group": {"base": b, "name": k}, "max_hops": max_hops, "hostile_names": hostile, "items": [desc(i), desc(j)]});
         let expl = || if NAME_LEVEL_BROKEN.load(AO::Relaxed) { "|explained:label-or-name-level-defect" } else { "" };
         let sig1 = |kind: &str, i: usize| format!("C04|{dom}|{kind}|{t}|{}{}", items[i].class, expl());
         let sig2 = |kind: &str, i: usize, j: usize| format!("C04|{dom}|{kind}|{t}|{}{}", if shape_class_rank(items[i].class) >= shape_class_rank(items[j].class) { items[i].class } else { items[j].class }, expl());
@@ -3033,7 +3442,7 @@ fn dom_embedded_shapes(env: &Env, max_hops: usize, only: Option<(usize, usize)>)
                 let (Some(x), Some(y)) = (&recs[i], &recs[j]) else { continue };
                 env.stats.eval();
                 if i != j {
-                    env.stats.distinct(mix(21, b * 8 + k, i * 1024 + j));
+                    env.stats.distinct(mix(if hostile { 35 } else { 21 }, b * 8 + k, i * 1024 + j));
                 }
                 match guard(|| eobserve(x, y)) {
                     Err(e) => env.viol(sig2(&format!("panic|{}", panic_class(&e)), i, j), e, case2(i, j)),
@@ -3094,7 +3503,7 @@ fn dom_embedded_shapes(env: &Env, max_hops: usize, only: Option<(usize, usize)>)
                     }
                 }
                 for kind in bad {
-                    if involves_parsed {
+                    if involves_parsed || hostile {
                         env.viol(sig2(kind, i, j), format!("{o:?}; names equal ignoring case: {names_eq}, RFC 4034 6.1 order of the names {}, octet order of the canonical RDATA {}", ord_s(name_order), ord_s(canon_order)), case2(i, j));
                     } else {
                         *local.entry(format!("{dom}:flat-vs-flat-differs-from-reference(reported-by-the-rdata-domains):{kind}:{t}")).or_insert(0) += 1;
@@ -3314,6 +3723,17 @@ fn substitute_names() -> Vec<Vec<Vec<u8>>> {
     vec![vec![b"b".to_vec()], vec![b"B".to_vec()], vec![b"a".to_vec(), b"b".to_vec()], vec![b"a".to_vec(), b"B".to_vec()], vec![]]
 }
 
+/// One-label names whose label ends in / consists of the octet 0x00 (with a
+/// case twin and a pair differing only in the letter before the 0x00) or
+/// has the maximum length with the case-relevant octet last or first, and
+/// the plain `a.` for comparison: the hostile corners of the name domains at
+/// the use sites of names (owner of a record, name inside record data).
+fn hostile_names() -> Vec<Vec<Vec<u8>>> {
+    let mut first = vec![b'a'; 63];
+    first[0] = b'Z';
+    vec![vec![b"a".to_vec()], vec![b"a\0".to_vec()], vec![b"A\0".to_vec()], vec![b"b\0".to_vec()], vec![b"\0".to_vec()], vec![with_last(b'a', 63, b'Z')], vec![with_last(b'a', 63, b'z')], vec![first]]
+}
+
 /// For every compact value, every window of 1, 2, 4 or 6 octets of its
 /// RDATA outside the embedded names is overwritten with each boundary
 /// value of that width; what the library parses back to exactly these octets
@@ -3373,7 +3793,7 @@ fn dom_fields(env: &Env, only: Option<(usize, usize, usize)>) {
         let mut cands: Vec<(Vec<u8>, Vec<(usize, usize)>)> = Vec::new();
         if w == 0 {
             let (o, l) = v.names[off];
-            for nm in substitute_names() {
+            for nm in substitute_names().into_iter().chain(hostile_names()) {
                 let nw = name_wire(&nm);
                 let mut wire = v.wire[..o].to_vec();
                 wire.extend_from_slice(&nw);
@@ -3652,7 +4072,8 @@ macro_rules! one_hdr {
 fn dom_headers(env: &Env, only: Option<&[usize]>) {
     use domain::base::record::ParsedRecord;
     let dom = "record-header";
-    let owners = owner_menu();
+    let mut owners = owner_menu();
+    owners.extend(hostile_names().into_iter().skip(1));
     struct H {
         owner: usize,
         rtype: u16,
@@ -3819,6 +4240,7 @@ fn main() {
         let idx: Vec<usize> = case["items"].as_array().map(|a| a.iter().filter_map(|x| x["index"].as_u64()).map(|x| x as usize).collect()).unwrap_or_default();
         match case["domain"].as_str().unwrap_or("") {
             "label" => dom_labels(&env, Some(&idx)),
+            "label-position" => dom_label_positions(&env, Some(&idx)),
             "charstr" => dom_charstrs(&env, Some(&idx)),
             "name" | "name-flat" => {
                 let depth = case["items"][0]["depth"].as_u64().unwrap_or(3) as usize;
@@ -3826,7 +4248,10 @@ fn main() {
                 let chain3 = case["items"][0]["chain3"].as_bool().unwrap_or(false);
                 dom_names(&env, depth, menu, chain3, true, 3, Some(&idx))
             }
-            "relname" | "relname-flat" => dom_relnames(&env, 3, Some(&idx)),
+            "relname" | "relname-flat" => {
+                let it = &case["items"][0];
+                dom_relnames(&env, it["depth"].as_u64().unwrap_or(3) as usize, it["menu"].as_u64().unwrap_or(5) as usize, true, 12, Some(&idx))
+            }
             "name-shape" => {
                 let it = &case["items"][0];
                 dom_name_shapes(&env, it["depth"].as_u64().unwrap_or(3) as usize, it["menu"].as_u64().unwrap_or(5) as usize, it["max_hops"].as_u64().unwrap_or(2) as usize, it["far"].as_bool().unwrap_or(false), 17, Some(&idx))
@@ -3844,7 +4269,7 @@ fn main() {
             }
             "rdata-name-shape" => {
                 let g = &case["group"];
-                dom_embedded_shapes(&env, case["max_hops"].as_u64().unwrap_or(2) as usize, Some((g["base"].as_u64().unwrap_or(0) as usize, g["name"].as_u64().unwrap_or(0) as usize)))
+                dom_embedded_shapes(&env, case["max_hops"].as_u64().unwrap_or(2) as usize, case["hostile_names"].as_bool().unwrap_or(false), Some((g["base"].as_u64().unwrap_or(0) as usize, g["name"].as_u64().unwrap_or(0) as usize)))
             }
             "rdata-wide" => {
                 let c: Vec<u64> = case["candidates"].as_array().map(|a| a.iter().filter_map(|x| x.as_u64()).collect()).unwrap_or_default();
@@ -3857,12 +4282,29 @@ fn main() {
         }
     } else {
         phase("labels", &mut || dom_labels(&env, None));
+        phase("label-positions", &mut || dom_label_positions(&env, None));
         phase("charstrs", &mut || dom_charstrs(&env, None));
         phase("names-depth3", &mut || dom_names(&env, 3, 5, false, true, 3, None));
         phase("names-depth2-extended-menu", &mut || dom_names(&env, 2, 7, true, true, 9, None));
-        phase("relative-names", &mut || dom_relnames(&env, 3, None));
+        // hostile octets (00, 2E) inside / at the end of labels, and labels of
+        // the maximum length with the case-relevant octet first / last, in
+        // whole names in every representation (quick: all names of <= 2 labels
+        // plus the special label at every position of 3-label names)
+        // (thorough: also UncertainName chains, chains of chains and all
+        // triples; and all names of <= 3 labels)
+        phase("names-hostile-octets", &mut || dom_names(&env, 2, MENU_HOSTILE, !quick, !quick, 31, None));
+        phase("names-long-labels", &mut || dom_names(&env, 2, MENU_LONG, !quick, true, 32, None));
+        phase("relative-names", &mut || dom_relnames(&env, 3, 5, true, 12, None));
+        phase("relative-names-hostile-octets", &mut || dom_relnames(&env, 2, MENU_HOSTILE, !quick, 33, None));
+        phase("relative-names-long-labels", &mut || dom_relnames(&env, 1, MENU_LONG, true, 36, None));
+        if !quick {
+            phase("names-hostile-octets-depth3", &mut || dom_names(&env, 3, MENU_HOSTILE, false, false, 38, None));
+            phase("relative-names-hostile-octets-depth3", &mut || dom_relnames(&env, 3, MENU_HOSTILE, false, 39, None));
+        }
         phase("name-shapes-depth3-hops2", &mut || dom_name_shapes(&env, 3, 5, 2, false, 17, None));
         phase("name-shapes-depth2-extended-menu-hops3-near+far", &mut || dom_name_shapes(&env, 2, 7, 3, true, 18, None));
+        phase("name-shapes-hostile-octets", &mut || dom_name_shapes(&env, if quick { 1 } else { 2 }, MENU_HOSTILE, 3, true, 34, None));
+        phase("name-shapes-long-labels", &mut || dom_name_shapes(&env, 1, MENU_LONG, 3, false, 37, None));
         if !quick {
             phase("name-shapes-depth3-hops3", &mut || dom_name_shapes(&env, 3, 5, 3, false, 19, None));
             phase("name-shapes-depth3-extended-menu-hops2", &mut || dom_name_shapes(&env, 3, 7, 2, false, 20, None));
@@ -3878,7 +4320,8 @@ fn main() {
         phase("rdata", &mut || dom_rdata(&env, None, false));
         phase("zrdata", &mut || dom_rdata(&env, None, true));
         phase("records", &mut || dom_records(&env, None));
-        phase("embedded-name-shapes", &mut || dom_embedded_shapes(&env, 3, None));
+        phase("embedded-name-shapes", &mut || dom_embedded_shapes(&env, 3, false, None));
+        phase("embedded-name-shapes-hostile-names", &mut || dom_embedded_shapes(&env, if quick { 1 } else { 3 }, true, None));
         phase("rdata-fields", &mut || dom_fields(&env, None));
         phase("rdata-wide", &mut || dom_wide(&env, None, if quick { 1000 } else { usize::MAX }));
     }
@@ -3898,6 +4341,16 @@ fn main() {
                 "name_label_menu": ["a", "A", "b", "a.b (one label)", "ab"],
                 "name_label_menu_extended": ["a", "A", "b", "a.b (one label)", "ab", "a\\001b (one label)", "\\001a (one label)"],
                 "name_depth_extended_menu": if quick { 2 } else { 3 },
+                "hostile_octets_in_names": {
+                    "menu_hostile": ["a (filler)", "\\000", "a\\000", "A\\000", "\\000a", "a\\000b", "b\\000", ". (one label)", "a. (one label)"],
+                    "menu_long": ["a (filler)", "63 x a", "62 x a + Z", "Z + 62 x a", "62 x a + z", "z + 62 x a"],
+                    "names": if quick { "all label sequences of <= 2 labels over each menu plus every non-filler label at every position of a 3-label name padded with the filler (115 and 58 names)" } else { "as quick with UncertainName chains, chains of chains and all triples; plus all sequences of <= 3 labels over the hostile menu (and each label at every position of 4-label names)" },
+                    "representations": "flat Name (Vec, Bytes, &[u8], [u8]), ParsedName uncompressed / compressed at every suffix / pointer per label / double pointer, Chain split at every boundary; RelativeName flat, Chain<Rel,Rel> and Chain<Chain<Rel,Rel>,Rel> at every split; every compression shape with <= 3 hops (near and far targets) of the names of <= 1 label (thorough: <= 2) plus 2-label paddings",
+                    "oracles": "all oracles of the name domains (reference equality and RFC 4034 6.1 order on lower-cased label lists, operators, Ord, CanonicalOrd, composed orders against wire octets, Hash input equality for equal names, canonical forms == independently lower-cased wire, total-preorder rank test, triples) plus the label walks and starts_with/ends_with below",
+                    "use_sites": "hostile_names = {a., a\\000., A\\000., b\\000., \\000., (62 x a + Z)., (62 x a + z)., (Z + 62 x a).}: as owners of record headers (with the 3 plain owners: 160 headers x 3 representations); substituted for every embedded name of every compact record data value (rdata-fields, flat) and for the owner of an A record; the same stored in every compression shape with <= 1 hop (thorough: 3) through Record / record data / RecordHeader ==, partial_cmp, cmp, canonical_cmp, Hash against the reference, flat-vs-flat included",
+                },
+                "label_walks": "every name of every name / relative-name / name-shape domain in every representation: iter_labels forwards; backwards; f labels from the front then the rest from the back (every f); b labels from the back then the rest from the front (every b); alternating from either end; count from both ends: each walk yields exactly the labels the name was built from, then None. ToLabelIter::starts_with / ends_with for all ordered pairs of representations against label-wise prefix / suffix of the lower-cased label lists. Flat Name: iter, iter_suffixes, label_count, first, last, split_first, parent, ends_with and strip_suffix with each own suffix; flat RelativeName: label_count, first, last, make_canonical, starts_with / ends_with / strip_suffix with each own prefix / suffix",
+                "case_at_every_position": "for every label length 1..=63 and every position (2016 groups): label a..Z..a vs twin a..z..a (==, cmp, partial_cmp, Hash calls identical) and vs neighbours a..y..a, a..{..a (order of the lower-cased octets), composed_cmp / lowercase_composed_cmp; canonical forms Label::to_canonical, compose_canonical, OwnedLabel::make_canonical; the label alone and followed by label B as absolute name: compose_canonical and to_canonical_name of flat Name, ParsedName and Chain, Name::make_canonical, all == independently lower-cased wire; ==, cmp, name_cmp, canonical_cmp, Hash against the lower-case twin; RelativeName: make_canonical, compose_canonical, to_canonical_relative_name, ==, cmp, Hash",
                 "embedded_names": "every embedded name of every compact value replaced by each of b., B., a.b., a.B. and the root (canonical name order opposite to wire order; case twins); all ordered pairs and triples within each (value, name) group",
                 "variable_length_tails": "for every compact value and every offset (not inside an embedded name) the RDATA from that offset on replaced by each of 28 tails of length 0..3 over {00,01,02,FF} (shorter-but-larger, shorter-and-smaller, strict prefixes); all ordered pairs and triples within each (value, offset) group",
                 "numeric_fields": "every window of 1/2/4/6 octets outside embedded names of every compact value overwritten with 0, 1, 2^(n-1)-1, 2^(n-1), 2^(n-1)+1, 2^n-1; all ordered pairs and triples within each (value, width, offset) group",
@@ -3918,7 +4371,8 @@ fn main() {
             "samples": env.stats.samples(),
         }),
         &[
-            "labels longer than 3 (except 62/63), names deeper than 4 and RDATA values off the rgen menus are not covered (DESIGN C04 L.)",
+            "labels longer than 3 (except 62/63, and the one-upper-case-letter family of every length 1..63), names deeper than 4 and RDATA values off the rgen menus are not covered (DESIGN C04 L.); hostile octets inside names are limited to 00 and 2E in the label shapes of the hostile menu",
+            "label walks: after a walk has consumed every label the iterator is asked once more (at the end opposite to the last label taken) and must answer None; behaviour after that first None is not constrained",
             "RFC 4034 6.3 orders records only within one RRset; across RRsets the documented (class, owner, type, RDATA) order or the octet order of the complete canonical forms is accepted, and equal-RDATA records that differ in TTL may compare Equal or by TTL",
             "equality of record data is the library's choice between 'wire equal up to the case of embedded names' (must be equal) and anything coarser; only its coherence with cmp and Hash is demanded",
             "RelativeName, RecordHeader, ParsedRecord and Question are not enumerated; Chain has no Eq/Ord/Hash impls and is exercised through name_eq/name_cmp and as right-hand side of Name/ParsedName operators",
